@@ -53,7 +53,7 @@ IsInlinedPathItemCycle(line, bad) ==
 SelfOps == {"schema_self_allof_default", "schema_self_anyof_example", "schema_self_not_default"}
 Class(line, bad) ==
    IF bad = {"returns_normally"} /\ line.c.base.comps = "full" /\ Len(line.c.muts) = 1 /\ line.c.muts[1].op \in SelfOps
-      /\ (\E s \in DOMAIN line.obs : line.obs[s] \in {"crash", "hang"}) THEN   \* (the watchdog may fire before the 1 GB stack is used up) "self_composition_value_check_overflows" ELSE
+      /\ (\E s \in DOMAIN line.obs : line.obs[s] \in {"crash", "hang"}) THEN "self_composition_value_check_overflows" ELSE   \* ("hang": the watchdog may fire before the 1 GB stack is used up)
    IF IsInlinedPathItemCycle(line, bad) THEN "internalize_inlines_path_item_cycle" ELSE
    LET ms == (IF "applied" \in DOMAIN line THEN line.applied ELSE <<>>)  msg == IF "msg" \in DOMAIN line THEN line.msg ELSE "" IN
    IF bad # {"returns_normally"} \/ \E s \in DOMAIN line.obs : line.obs[s] \in {"hang", "crash"} THEN "none"
